@@ -231,11 +231,42 @@ def run_shard(spec, ctx):
         # context bound 3 with two real threads and a deterministic hand-over: A[0:k] B[0:j] A[k:] B[j:], (k, j) sampled, cold and warm
         inj = sched.Injector(a5dir)
         ho = sched.Handover(a5dir)
+        conts_h = [(p_, o) for p_, o in state.containers() if isinstance(o, (list, dict)) and not p_.endswith('.__dict__')]
         for an, bn in spec['pairs']:
             A, B = make_call(a5, cat[an]), make_call(a5, cat[bn])
             na, nb = inj.events_in(A, 'line'), inj.events_in(B, 'line')
             rew.rewind()
             nac, nbc = inj.events_in(A, 'line'), inj.events_in(B, 'line')
+            # directed schedules: stop both calls right where they WRITE shared containers (the warm write footprint, if any)
+            A(), B()
+            objs_h = [o for p_, o in conts_h]
+            if True:
+
+                def sig_():
+                    # lengths (and the identity of the last element of lists) of every shared list / dict: transient pops,
+                    # appends, insertions and deletions all show up, also when the container is back to its old state at the end
+                    return tuple((len(o), id(o[-1]) if o.__class__ is list and o else 0) for o in objs_h)
+                ca = inj.state_change_events(A, sig_)
+                cb = inj.state_change_events(B, sig_)
+                if ca or cb:
+                    ctx.count('pairs_with_transient_shared_writes')
+                cand = [(k + dk, j + dj) for k in ca[:400] for j in cb[:400] for dk in (-1, 0) for dj in (0, 1, 2)]
+                ctx.rnd.shuffle(cand)
+                for k, j in cand[:spec['n']]:
+                    if k < 1 or j < 1:
+                        continue
+                    ra, rb, hung = ho.run(A, B, k, j)
+                    case = {'A': an, 'B': bn, 'A_call': cat[an], 'B_call': cat[bn], 'mode': 'handover', 'k': k, 'j': j, 'cold': False}
+                    ctx.case((an, bn, 'handover', k, j, 'directed'), nontrivial=True)
+                    ctx.count('handover_schedules_directed')
+                    if hung or ra is None or rb is None:
+                        ctx.count('handover_watchdog')
+                        continue
+                    for nm, r_, name in (('A', ra, an), ('B', rb, bn)):
+                        if r_[0] == 'exc':
+                            ctx.fail('%s_raises' % nm, case, exc=repr(r_[1]))
+                        elif sched.canon(r_[1]) != base[name]:
+                            ctx.fail('%s_wrong_result' % nm, case)
             for it in range(spec['n']):
                 cold = it % 3 == 0
                 k = ctx.rnd.randint(1, nac if cold else na)
